@@ -53,7 +53,9 @@ pub const COMMIT_APPLY: u32 = 125; // OrderedCommitter::commit before applying s
 pub const FINALITY_LOCK: u32 = 126; // lock_finality_candidate: cursor read, before the tx lock
 pub const VALIDATE_NOTIFY: u32 = 127; // validate: before the finality notification test
 pub const ERROR_HEAD_CHECK: u32 = 128;
-pub const CACHE_CLEAR: u32 = 129; // apply_account_state: between the status change and the storage clear // execute_task error branch: before sampling the commit head
+pub const CACHE_CLEAR: u32 = 129;
+pub const REWIND_DONE: u32 = 130; // rewind_validation_to: after the index became claimable again
+pub const EXECUTED_DONE: u32 = 131; // execute_task: after the execution frontier was published // apply_account_state: between the status change and the storage clear // execute_task error branch: before sampling the commit head
 
 // ---- harness points ----
 pub const HARNESS_DB: u32 = 200; // inside the harness database (a "slow database")
